@@ -240,7 +240,8 @@ def run(tier='quick', seed=0, observer=None, n_goals_override=None):
     # ---------------------------------------------------------------- perturbations
     TA = TVar('a')
     gen_vars = {'A': BoolType, 'B': BoolType, 'C': BoolType, 'P': TFun(TA, BoolType), 'Q': TFun(TA, BoolType),
-                'R': TFun(TA, TA, BoolType), 'a': TA, 'b': TA}
+                'R': TFun(TA, TA, BoolType), 'a': TA, 'b': TA, 'Pb': TFun(BoolType, BoolType)}
+    Pb = Var('Pb', gen_vars['Pb'])
     A, B, C = Var('A', BoolType), Var('B', BoolType), Var('C', BoolType)
     P, Q, R = Var('P', gen_vars['P']), Var('Q', gen_vars['Q']), Var('R', gen_vars['R'])
     a, b = Var('a', TA), Var('b', TA)
@@ -362,6 +363,21 @@ def run(tier='quick', seed=0, observer=None, n_goals_override=None):
             if not exact and rng.random() < 0.1:
                 nq += 1            # one name too many: the step should be rejected, not half done
             step['names'] = ', '.join('i%d_%d' % (fresh_counter[0], i) for i in range(nq))
+            if rng.random() < 0.4:
+                # the binders' own names (as the editor proposes them): sibling sub-proofs then declare the SAME name
+                bn = []
+                try:
+                    t_ = state.get_proof_item(gid).th.prop
+                    while t_.is_forall() or t_.is_implies():
+                        if t_.is_forall():
+                            bn.append(t_.arg.var_name)
+                            t_ = t_.arg.body
+                        else:
+                            t_ = t_.arg
+                except Exception:
+                    bn = []
+                if bn and len(set(bn)) == len(bn) and len(bn) == nq:
+                    step['names'] = ', '.join(bn)
         return step
 
     def random_step(state, k):
@@ -395,6 +411,29 @@ def run(tier='quick', seed=0, observer=None, n_goals_override=None):
                            'inst_exists_goal', 'apply_prev', 'apply_fact', 'rewrite_goal_with_prev'])
         step = {'method_name': name, 'goal_id': str(gid), 'fact_ids': [str(f) for f in fs]}
         return fill_params(state, step, gid)
+
+    def names_plan():
+        """Split conjunctive goals (conjI) and open every universal / implicational gap with the binders' own names,
+        so that sibling sub-proofs declare the same variable names; then random steps."""
+        def step(state, k):
+            try:
+                for g in sorry_ids(state.prf):
+                    pr_ = state.get_proof_item(g).th.prop
+                    if pr_.is_conj():
+                        return {'method_name': 'apply_backward_step', 'goal_id': str(g), 'fact_ids': [], 'theorem': 'conjI'}
+                    if pr_.is_forall() or pr_.is_implies():
+                        bn, t_ = [], pr_
+                        while t_.is_forall() or t_.is_implies():
+                            if t_.is_forall():
+                                bn.append(t_.arg.var_name)
+                                t_ = t_.arg.body
+                            else:
+                                t_ = t_.arg
+                        return {'method_name': 'introduction', 'goal_id': str(g), 'fact_ids': [], 'names': ', '.join(bn)}
+            except (Exception, StepTimeout):
+                pass
+            return random_step(state, k)
+        return step
 
     def merge_plan():
         """A directed history around ProofState.replace_id: cut a statement X that a visible fact yields in one
@@ -496,6 +535,7 @@ def run(tier='quick', seed=0, observer=None, n_goals_override=None):
         t_last[0] = time.time()
         context.set_context('logic_base', vars=dict(gen_vars))
         nas = rng.choice([0, 1, 2, 2])
+        two_types = False
         if gi % 3 == 0:
             # scenario goals: several existential / universal / conjunctive facts, implication or forall goal
             xv, yv = Var('x', TA), Var('y', TA)
@@ -513,6 +553,18 @@ def run(tier='quick', seed=0, observer=None, n_goals_override=None):
                                  lambda: gen_form(2, [a, b]), lambda: rng.choice([A, B, C]),
                                  lambda: rng.choice([P, Q])(rng.choice([a, b])), lambda: R(a, b)])()
             goal = Implies(*(assms_ + [concl_]))
+            if rng.random() < 0.2:
+                # one bound name at two types in different parts of the goal: the sub-proofs declare the same
+                # variable name at different types
+                xa, xb = Var('x', TA), Var('x', BoolType)
+                goal = rng.choice([
+                    lambda: Implies(Forall(xa, P(xa)), Forall(xb, Pb(xb)),
+                                    And(Forall(xa, Or(P(xa), A)), Forall(xb, Or(Pb(xb), B)))),
+                    lambda: And(Forall(xa, Implies(P(xa), P(xa))), Forall(xb, Implies(Pb(xb), Pb(xb)))),
+                    lambda: Implies(Exists(xa, P(xa)), Exists(xb, Pb(xb)),
+                                    And(Exists(xa, Or(P(xa), A)), Forall(xb, Implies(Pb(xb), Pb(xb))))),
+                    lambda: Implies(A, And(Forall(xb, Implies(Pb(xb), A)), Forall(xa, Implies(Q(xa), A))))])()
+                two_types = True
         else:
             goal = Implies(*([gen_form(2, [a, b]) for _ in range(nas)] + [gen_form(2, [a, b])]))
         goal_str = pr(goal)
@@ -521,13 +573,16 @@ def run(tier='quick', seed=0, observer=None, n_goals_override=None):
         except Exception as e:
             violations.append({'clause': 'initial', 'detail': 'parse_init_state raises %s' % str(e)[:100], 'goal': goal_str})
             continue
-        if gi % 3 == 0 and rng.random() < 0.6:
+        if two_types:
+            drive(state, Thm(goal), goal_str, gen_vars, names_plan(), rng.choice([8, 12]))
+        elif gi % 3 == 0 and rng.random() < 0.6:
             drive(state, Thm(goal), goal_str, gen_vars, merge_plan(), rng.choice([8, 12, 16]))
         else:
             drive(state, Thm(goal), goal_str, gen_vars, random_step, rng.choice([4, 8, 12, 16]))
 
     # ---------------------------------------------------------------- (2) recorded library steps
-    thys = ['logic_base'] if tier == 'quick' else ['logic_base', 'logic', 'function', 'set']
+    # nat: a sample of the theorems whose recorded proof has an induction step (exported with a three-part argument)
+    thys = ['logic_base', 'nat'] if tier == 'quick' else ['logic_base', 'logic', 'function', 'set', 'nat']
     lib_deadline = time.time() + (120 if tier == 'quick' else 420)     # wall-clock budget of the library part
     for thy_name in thys:
         with open(os.environ.get('HOLPY_REPO', '/repo') + '/library/%s.json' % thy_name, encoding='utf-8') as f:
@@ -535,6 +590,10 @@ def run(tier='quick', seed=0, observer=None, n_goals_override=None):
         vals = [v for v in content if v['ty'] == 'thm' and 'steps' in v]
         if tier != 'quick' and thy_name == 'set':
             vals = rng.sample(vals, 12)
+        if thy_name == 'nat':
+            vals = [v for v in vals if any(st_.get('method_name') == 'induction' for st_ in v['steps'])
+                    and len(v['steps']) <= 12]
+            vals = rng.sample(vals, min(len(vals), 3 if tier == 'quick' else 10))
         for val in vals:
             if time.time() > lib_deadline:
                 stats['library_time_budget_hit'] = stats.get('library_time_budget_hit', 0) + 1
